@@ -5,7 +5,7 @@ CONSTANTS
   AuthLevels = {"REQUIRED","PREFERRED","OPTIONAL","NEVER"}
   EncLevels = {"REQUIRED","PREFERRED","OPTIONAL","NEVER"}
   IntegChoices = {"SAME","REQUIRED"}
-  MethodLists <- ListsAll
+  MethodLists <- ListsEight
   AllMethods = {"C","P","K"}
   Runnable = {"C"}
   PeerLevels = {"OPTIONAL","REQUIRED"}
